@@ -1,18 +1,24 @@
 /-
 C07 — idle blocking is unobservable.
 
-Full statement (not proved as one theorem): for every reachable state in which
-`can_block_update_idle_waiting` answers true, ticking any number of times produces no output and
-leaves a state from which every later input is handled identically.
+Full statement: for every reachable state in which `can_block_update_idle_waiting` answers true,
+ticking any number of times produces no output and leaves a state from which every later input is
+handled identically.
 Proved here: what `is_idle` covers (every time-driven component of the layout and of the kanata
-layer that is modelled), that a tick from such a state is silent and changes nothing but ageing
-counters — under two hypotheses the idle predicate does not establish (`Synced`, `PlainStates`),
-each of which is needed (witnesses) —, and that the pinned predicate missed three components
-(repaired by 6f31db9, 1f5ac33, 6e1cc72). The run-level comparison (blocking loop vs always-ticking
-loop) is the C07 oracle on the real code.
+layer that is modelled); `block_silent` / `block_silent_forever`: from a state in which kanata may
+block, ANY number of whole `tick_states` emits nothing, cannot crash, and changes nothing but ageing
+counters (the state one tick later is given in closed form) — under the hypotheses the idle
+predicate does not establish (`Synced`, `PlainStates`, no override erasing keys), each of which is
+needed (the macro-release-cancel known finding is a state that is idle but not synced); and that
+the pinned predicate missed three components (repaired by 6f31db9, 1f5ac33, 6e1cc72).
+Not proved: that those extra hypotheses hold in every reachable blocking state (false: see the known
+finding) and that later inputs are handled identically although history ages differ (the
+`switch_max_key_timing` guard of `can_block` is about exactly that); both are what the run-level
+comparison (blocking loop vs always-ticking loop on the real code) decides.
 -/
 import KVerif.Lemmas.LayeredTick
 import KVerif.Model.Kanata
+import KVerif.Lemmas.KanataQuiet
 namespace KVerif.C07
 open KVerif.L KVerif.K
 
@@ -158,13 +164,162 @@ theorem diff_silent_when_synced (k : KState) (cur : List KeyCode) (rev : Bool) (
     pressNew (releaseOld k cur rev) cur = k := by
   rw [releaseOld_synced k cur rev h.1, pressNew_synced k cur h.2]
 
-/-! `block_silent_partial` (NOT proved as one theorem): "when kanata may block, a whole `tick_states`
-emits nothing". Its two halves are proved above for every state `is_idle` accepts:
-`layout_tick_silent_when_quiet` (the layout part; needs `PlainStates`, which `is_idle` only partly
-checks) and `diff_silent_when_synced` (the output part; needs `Synced`, which `is_idle` does not check
-at all — the `macro-release-cancel` known finding is exactly a state that is idle but not synced).
-Their composition through `handle_keystate_changes` (unmod, overrides, caps-word in between) is
-covered by the C07 correspondence and the model-side quiescence diagnosis, not by a theorem. -/
+/-! ### Composition: when kanata may block, ticking instead is unobservable -/
+
+theorem handleKeystateChanges_quiet (k : KState) (hq : QuietLayout k.layout) (hcw : k.capsWord = none)
+    (hcur : k.curKeys = [])
+    (cur' : List KeyCode) (ost : Override.OverrideStates)
+    (hov : k.overrides.overrideKeys (adjustKeys k k.layout.keycodes) k.overrideStates = .ok (cur', ost))
+    (hrm : ost.toRemove = []) (hsync : Synced k cur') :
+    ∃ l', tick k.layout = .ok (l', .noEvent) ∧ l'.states = k.layout.states ∧ QuietLayout l' ∧
+      handleKeystateChanges k = .ok { k with layout := l', overrideStates := ost, curKeys := cur' } := by
+  obtain ⟨l', ht, hst, _, _, _, _, _, _, _, _, _, hq'⟩ := layout_tick_silent_when_quiet k.layout hq
+  refine ⟨l', ht, hst, hq', ?_⟩
+  have hkc : l'.keycodes = k.layout.keycodes := by unfold Layout.keycodes; rw [hst]
+  have hadj : adjustKeys { k with layout := l' } (({ k with layout := l' } : KState).curKeys ++ l'.keycodes)
+      = adjustKeys k k.layout.keycodes := by
+    simp only [hcur, List.nil_append, hkc]; rfl
+  have hsync' : Synced ({ k with layout := l', overrideStates := ost } : KState) cur' := hsync
+  unfold handleKeystateChanges
+  simp only [ht, applyUnmodEvent, hadj, hov, hrm, eraseOverridden_nil]
+  have hcw' : applyCapsWord ({ k with layout := l', overrideStates := ost } : KState) cur'
+      = (cur', { k with layout := l', overrideStates := ost }) := by
+    unfold applyCapsWord; simp only [hcw]
+  simp only [hcw', diff_silent_when_synced _ _ _ hsync', hkcCustom]
+
+
+theorem tick_quiet_eq (l : Layout) (h : QuietLayout l) : tick l = .ok (tickPre l, .noEvent) := by
+  obtain ⟨p1, p2, p3, p4, p5, p6, p7, p8, p9, p10⟩ := tickPre_quiet l h
+  have hq : QuietLayout (tickPre l) :=
+    ⟨p2, p3, p4, by rw [p5]; exact h.osh, by rw [p5]; exact h.pause, p6, p8, p7,
+      by unfold PlainStates; rw [p1]; exact h.plain⟩
+  have hosh : tickOneshot (tickPre l) = .ok (tickPre l, .noEvent) := by
+    unfold tickOneshot OneShotState.tick; simp [hq.osh]
+  have hmain : tickMain (tickPre l) = .ok (tickPre l, .noEvent) := by
+    unfold tickMain
+    simp [hq.waiting, hq.extra, hq.pause, hq.queue]
+  have hext := C04.processExtraWaitings_inert (s := tickPre l) hq.extra .noEvent
+  unfold tick
+  simp only [h.aq, hosh, hmain, CustomEv.update, hext, processSequenceCustom_quiet _ hq.plain]
+
+theorem tickPre_lpt (l : Layout) (h : QuietLayout l) :
+    (tickPre l).lptTapHoldTimeout = l.lptTapHoldTimeout - 1 := by
+  tickpre_field h
+
+/-- the states `can_block_update_idle_waiting` lets the loop sleep in, plus the two facts it does not
+check: no sequence-driven state (`PlainStates`) and the OS key state equal to the wanted key list
+(`Synced`, after overrides; an override that fires and erases keys is excluded by `toRemove = []`) -/
+structure MayBlock (k : KState) (cur' : List KeyCode) (ost : Override.OverrideStates) : Prop where
+  idle : isIdle k = true
+  noWait : k.waitingForIdle = []
+  plain : PlainStates k.layout
+  curEmpty : k.curKeys = []
+  wanted : k.overrides.overrideKeys (adjustKeys k k.layout.keycodes) k.overrideStates = .ok (cur', ost)
+  noErase : ost.toRemove = []
+  synced : Synced k cur'
+
+/-- the state one tick later -/
+def afterQuietTick (k : KState) (cur' : List KeyCode) (ost : Override.OverrideStates) : KState :=
+  { k with layout := tickPre k.layout, overrideStates := ost, curKeys := [], prevKeys := cur',
+           macroOnPressCancelDuration := k.macroOnPressCancelDuration - 1 }
+
+theorem block_silent (k : KState) (cur' : List KeyCode) (ost : Override.OverrideStates) (h : MayBlock k cur' ost) :
+    tickStates k = .ok (afterQuietTick k cur' ost) ∧ (afterQuietTick k cur' ost).out = k.out ∧
+      (afterQuietTick k cur' ost).layout.states = k.layout.states ∧
+      MayBlock (afterQuietTick k cur' ost) cur' ost := by
+  obtain ⟨i1, i2, i3, i4, i5, i6, i7, i8, i9, i10, i11, i12, i13, i14, i15, i16⟩ := idle_covers_time_driven k h.idle
+  have hq : QuietLayout k.layout := ⟨i1, i2, i3, i5, i6, i7, i8, i9, h.plain⟩
+  obtain ⟨l', ht, hst, hq', hk⟩ := handleKeystateChanges_quiet k hq i15 h.curEmpty cur' ost h.wanted h.noErase h.synced
+  have hl' : l' = tickPre k.layout := by
+    have := tick_quiet_eq k.layout hq
+    rw [ht] at this; injection this with this; injection this
+  subst hl'
+  let k1 : KState := { k with layout := tickPre k.layout, overrideStates := ost, curKeys := cur' }
+  have e2 : handleScrolling k1 = .ok k1 := handleScrolling_none k1 i10 i11
+  have e3 : handleMoveMouse k1 = .ok k1 := handleMoveMouse_none k1 i12 i13
+  have e4 : tickIdleTimeout k1 = .ok k1 := tickIdleTimeout_nil k1 h.noWait
+  let k2 : KState := { k1 with macroOnPressCancelDuration := k1.macroOnPressCancelDuration - 1, prevKeys := k1.curKeys, curKeys := [] }
+  have e5 : tickHeldVkeys k2 = .ok k2 := tickHeldVkeys_nil k2 i16
+  have hk2 : k2 = afterQuietTick k cur' ost := rfl
+  have hidle' : isIdle (afterQuietTick k cur' ost) = true := by
+    have hlpt : (tickPre k.layout).lptTapHoldTimeout = 0 := by rw [tickPre_lpt _ hq, i4]
+    have hidle := h.idle
+    simp only [isIdle, Bool.and_eq_true, List.isEmpty_iff, Option.isNone_iff_eq_none, beq_iff_eq] at hidle ⊢
+    obtain ⟨_, hs⟩ := hidle
+    refine ⟨⟨⟨⟨⟨⟨⟨⟨⟨⟨⟨⟨⟨⟨⟨⟨hq'.queue, hq'.waiting⟩, hq'.extra⟩, hlpt⟩, hq'.osh⟩, hq'.pause⟩, hq'.seqs⟩, hq'.tde⟩, hq'.aq⟩, i10⟩, i11⟩, i12⟩, ?_⟩, i13⟩, i15⟩, i16⟩, ?_⟩
+    · show k.macroOnPressCancelDuration - 1 = 0
+      rw [i14]
+    · show (!((tickPre k.layout).states.any _)) = true
+      rw [hst]; exact hs
+  refine ⟨?_, rfl, hst, hidle', h.noWait, hq'.plain, rfl, ?_, h.noErase, ⟨fun _ hx => hx, fun _ hx => hx⟩⟩
+  · unfold tickStates
+    simp only [hk]
+    change (match handleScrolling k1 with
+      | .error c => Except.error c
+      | .ok k => _) = _
+    rw [e2]; simp only []
+    rw [e3]; simp only []
+    rw [e4]; simp only []
+    rw [← hk2]; exact e5
+  · -- the wanted list is the same next time: same states, same unmod lists, and the override pass
+    -- does not depend on the scratch state it is given
+    have hkc : (tickPre k.layout).keycodes = k.layout.keycodes := by unfold Layout.keycodes; rw [hst]
+    show k.overrides.overrideKeys (adjustKeys (afterQuietTick k cur' ost) (tickPre k.layout).keycodes) ost = .ok (cur', ost)
+    have hadj : adjustKeys (afterQuietTick k cur' ost) (tickPre k.layout).keycodes = adjustKeys k k.layout.keycodes := by
+      rw [hkc]; rfl
+    rw [hadj]
+    have hw := h.wanted
+    unfold Override.Overrides.overrideKeys at hw ⊢
+    split
+    · rename_i he
+      simp only [he, if_true] at hw
+      injection hw with hw; injection hw with h1 h2
+      rw [h1]
+    · rename_i he
+      simp only [he] at hw
+      exact hw
+
+/-- `n` consecutive ticks -/
+def ticksN : Nat → KState → Except K.Crash KState
+  | 0, k => .ok k
+  | n + 1, k => match tickStates k with
+    | .error c => .error c
+    | .ok k' => ticksN n k'
+
+/-- **block_silent_forever**: from a state in which kanata may block (and the two facts it does not
+check hold), any number of ticks emits nothing, crashes nowhere, and leaves the layout's states and
+the OS key state as they are - so sleeping instead of ticking is unobservable. -/
+theorem block_silent_forever (n : Nat) : ∀ (k : KState) (cur' : List KeyCode) (ost : Override.OverrideStates),
+    MayBlock k cur' ost →
+    ∃ k', ticksN n k = .ok k' ∧ k'.out = k.out ∧ k'.layout.states = k.layout.states ∧
+      (n > 0 → k'.prevKeys = cur') ∧ MayBlock k' cur' ost := by
+  induction n with
+  | zero => intro k cur' ost h; exact ⟨k, rfl, rfl, rfl, fun h => absurd h (by omega), h⟩
+  | succ n ih =>
+    intro k cur' ost h
+    obtain ⟨e, ho, hs, hm⟩ := block_silent k cur' ost h
+    obtain ⟨k', e', ho', hs', hp', hm'⟩ := ih _ cur' ost hm
+    refine ⟨k', ?_, ho'.trans ho, hs'.trans hs, fun _ => ?_, hm'⟩
+    · simp only [ticksN, e]; exact e'
+    · cases n with
+      | zero => simp only [ticksN] at e'; injection e' with e'; rw [← e']; rfl
+      | succ m => exact hp' (by omega)
+
+
+/-- non-vacuity: a key held down (layout state, OS state and wanted list agree), nothing pending -/
+example : MayBlock
+    { layout := { cfg := { layers := [[]], srcKeys := [] }, states := [.normalKey 30 (0, 30) 0] },
+      customs := [], keyOutputs := [[]], prevKeys := [30],
+      mods := { codes := [42, 54, 56, 100, 29, 97, 125, 126], lsft := 42, rsft := 54 } }
+    [30] Override.OverrideStates.new :=
+  ⟨rfl, rfl, by intro st hst; simp at hst; subst hst; trivial, rfl, rfl, rfl,
+   ⟨fun _ h => h, fun _ h => h⟩⟩
+
+/-! What `block_silent` still assumes beyond `can_block_update_idle_waiting`: `PlainStates` (kanata's
+`is_idle` checks the sequence-custom states but not a held `macro-repeat`), `Synced` (not checked at
+all: the `macro-release-cancel` known finding is a state that is idle but not synced), no override
+erasing keys at that moment, and an empty `cur_keys` (true between ticks). These are exactly the
+places the C07 paired runs probe, with the model diagnosing which one fails. -/
 
 /-! ### The pinned idle predicate missed three time-driven components -/
 
